@@ -107,7 +107,7 @@ ADD_TEXT = {
  "C08": " Extension: Watchers for unbounded callbacks incl. catch_unwind moved around the loop; no user code under the channel's state lock (guard lifetimes) in exec and sample_metrics; the OTLP worker completes only when every signal's receiver has (F18, FuturesUnordered model); blocking flush / send from any tokio context without panicking (F20); thread spawn call shapes.",
  "C09": " Extension: lock released before the sampler / watchers / processor run; send_or_wait outcome; EventBatch::clear incl. Vec::drain siblings; OtlpInner::emit route with the event's extent.",
  "C10": " Extension: Worker::on_batch as ONE extracted function with a ghost trail (directory creation, the single listing, reuse candidate, roll predicate incl. the recovery separator, retention, created name, write loop): every early exit hands back the whole batch; a failed write leaves the written events durable or rewinds the batch (F21); the default writer's visitor closure (untagged key labels, an Ok record is complete: F19); builder value flow.",
- "C11": " Extension: names from the real format strings with theorems (fixed width, numeric = text order, period order, round trip for dotted prefixes, created names are members of their own set); ActiveFileSet::read whole; retention also when a reopened file is kept and the fit check counts the recovery separator (F31); StdFile::len is the file's length (Seek siblings).",
+ "C11": " Extension: names from the real format strings with theorems (fixed width, numeric = text order, period order, round trip for dotted prefixes, created names are members of their own set); ActiveFileSet::read whole; retention also when a reopened file is kept and the fit check counts the recovery separator (F31); membership in a set is the strict naming scheme - period of digits and '-', counter of at least 8 digits, id of 8 hex digits (F32: a foreign file with three dot-free segments was deleted by retention); StdFile::len is the file's length (Seek siblings).",
  "C12": " Extension: the worker drains every signal's receiver (F18); the per-batch retry budget (batcher_receiver, also for C12); when_flushed (batcher_sender, also for C12).",
  "C13": " Extension (still partial, category other): call-sequence contracts of the OTLP log record / span adapters (layout with schema-checked field numbers, lifted iff the value converts else an ordinary attribute: F24, status and exception event as iffs, ids binary / fixed-width hex), sval labels and indices of the metric records read from the real derive attributes and related to the generated prost schema (F30), the metrics value visitor over sval's transcribed default integer chain (F22), the f64 running total as a structure over uninterpreted + / as f64, the file default writer's visitor (F19), the terminal writer's output as a ghost trace; open findings F11 (todo!() for non-string map keys) and F25 (duplicate exception.* attribute key).",
  "C14": " Extension: every numeric width is a metric point (F22), an unconfigured emitter counts what it drops (F23), KindFilter on the full three-form cast, Kind::from_str with trim siblings, into_points total for every extent.",
